@@ -84,8 +84,10 @@ CLAIMS["C03"] = ("proof", "Proved: the four invariant wrappers (exact traces: in
                  "add_invariant_checks against postconditions written from the statement (public and dunder Python methods and property accessors "
                  "wrapped; non-public, class/static methods, __repr__, __getattribute__ never touched; the constructor wrapped as a constructor, "
                  "__new__ when there is no Python constructor) -- three loops with ghost state (selected names as sequence, set and position index). "
-                 "Assumed: dir() lists distinct resolvable names; the outer wrapper factories _decorate_with_invariants/_decorate_new_with_invariants "
-                 "(contract: the function itself if already a checker, else a fresh checker wrapping it). BOUNDED: the composition on real classes "
+                 "The factories _decorate_with_invariants/_decorate_new_with_invariants are proved too (the function itself if it already checks "
+                 "invariants, else the closure for this kind of member -- constructor, async method, method -- around it, capturing func and the "
+                 "signature's parameter names). Trusted: dir() lists distinct resolvable names; _already_decorated_with_invariants is a pure "
+                 "predicate. BOUNDED in addition: the composition on real classes "
                  "(52 class programs against a reference written from the statement; never counted in obligations/discharged).", "8 C03")
 
 CLAIMS["C06"] = ("proof", "Structural induction realised as modular verification: every visit_X of _recompute.Visitor under contract (Constant, "
